@@ -10,7 +10,7 @@
    them (AllValidIn for the version filter, TypeAgrees for the kept element type). *)
 From AV Require Import Base.Bytes Base.Outcome Hash.HashModel Tree.Heap Tree.Ops Tree.Script Tree.Inv Tree.Copy
   Tree.CopyProofsDefs Tree.CopyProofsDeep Tree.CopyProofsCreate Tree.CopyProofsTop Tree.CopyProofsBridge
-  Tree.CopyProofsTiny.
+  Tree.CopyProofsTiny Tree.Frame.
 Open Scope list_scope.
 Open Scope N_scope.
 
@@ -113,3 +113,30 @@ Theorem C13_duplicate_refuted :
     Tiny13.dup m w = Val (OK m', w') /\
     (Tiny13.count_nodes w' m' < Tiny13.count_nodes w' m)%nat.
 Proof. exact Tiny13.duplicate_refuted. Qed.
+
+(* FRAME of an operation: every LOCAL operation (the 16 constructors of Tree/Frame.v:local_dest — create / named /
+   copy / character data / reference target / attributes / comment / get_or_create on a destination handle h)
+   touches, of everything allocated before, only the node h, no file, and of the models only the two index maps of
+   model_of h *)
+Theorem C13_local_frame : forall T tab_el tab_en check_fn LATEST root_attrs o h w r w',
+  local_dest o = Some h -> Closed w ->
+  run_op T tab_el tab_en check_fn LATEST root_attrs o w = Val (r, w') ->
+  exists m, CopyFrame h m w w' /\ (w_models w' = w_models w \/ model_of h w = Val (OK m, w)).
+Proof. exact local_frame. Qed.
+
+(* INDEPENDENCE (partial: the local operations; pending, covered by the implementation oracle INDEP and by the
+   correspondence only: OpMove OpMoveAt OpRemove OpRemoveKind OpSetItemName OpAddToFile OpRemoveFromFile OpRemoveFile
+   OpCreateFile OpNewModel and the OP2 family).  An operation with destination h leaves every model b that h does not
+   belong to alone: b's record, the files, every node of b's tree, b's reachable set; nodes allocated by the operation
+   are not reachable from b — disjointness of the reachable sets is preserved *)
+Theorem C13_independent_partial : forall T tab_el tab_en check_fn LATEST root_attrs o h w r w' b xb nb,
+  local_dest o = Some h -> Closed w ->
+  run_op T tab_el tab_en check_fn LATEST root_attrs o w = Val (r, w') ->
+  nth_opt (w_models w) (N.to_nat b) = Some xb -> w_nodes w (m_root xb) = Some nb ->
+  (forall x, Sub w (m_root xb) x -> x <> h) ->
+  model_of h w <> Val (OK b, w) ->
+  nth_opt (w_models w') (N.to_nat b) = Some xb /\ w_files w' = w_files w /\
+  (forall x, Sub w (m_root xb) x -> w_nodes w' x = w_nodes w x) /\
+  (forall x, Sub w' (m_root xb) x <-> Sub w (m_root xb) x) /\
+  (forall x, Sub w' (m_root xb) x -> x < w_next w).
+Proof. exact independent_op. Qed.
